@@ -221,7 +221,8 @@ fn run(name: &str, j: &J) -> Result<bool, String> {
                 ("s", DataType::text_values(["a".to_string(), "Bc".to_string(), "12".to_string()])), ("w", DataType::text()), ("d", DataType::date()),
                 ("ox", DataType::optional(DataType::integer_interval(-3, 5))), ("oy", DataType::optional(DataType::float_interval(0., 10.))),
             ].into_iter().collect::<Schema>()).size(1000).build();
-            let relations: Hierarchy<Arc<Relation>> = vec![t].iter().map(|t| (Identifier::from(t.name()), Arc::new(t.clone()))).collect();
+            let tid: Relation = Relation::table().name("tid").schema(vec![("pid", DataType::id()), ("x", DataType::integer_interval(-3, 5))].into_iter().collect::<Schema>()).size(100).build();
+            let relations: Hierarchy<Arc<Relation>> = vec![t, tid].iter().map(|t| (Identifier::from(t.name()), Arc::new(t.clone()))).collect();
             let exprs: &[&str] = &[
                 "CAST(x AS BOOLEAN)", "CAST(n AS BOOLEAN)", "CAST(y AS BOOLEAN)", "CAST(s AS BOOLEAN)", "CAST(w AS BOOLEAN)", "CAST(s AS FLOAT)", "CAST(s AS INTEGER)", "CAST(w AS FLOAT)",
                 "CAST(w AS INTEGER)", "CAST(y AS DATE)", "CAST(x AS DATE)", "CAST(s AS DATE)", "CAST(w AS DATE)", "CAST(b AS DATE)", "CAST(y AS TIME)", "CAST(y AS TIMESTAMP)", "CAST(s AS TIMESTAMP)",
@@ -276,6 +277,7 @@ fn run(name: &str, j: &J) -> Result<bool, String> {
                 "SELECT 1", "SELECT 1 AS a", "SELECT a.x FROM t AS a, t AS b", "VALUES (1), (2)", "SELECT * FROM (VALUES (1), (2)) AS v", "SELECT x FROM t GROUP BY ALL", "SELECT a.x FROM t AS a LEFT SEMI JOIN t AS b ON a.id = b.id",
                 "SELECT a.x FROM t AS a JOIN t AS b", "(SELECT x FROM t UNION SELECT x FROM t) UNION SELECT x FROM t", "SELECT x FROM t UNION VALUES (1)", "SELECT * FROM UNNEST(ARRAY[1, 2]) AS u", "TABLE t", "WITH c AS (VALUES (1)) SELECT * FROM c",
                 "SELECT x FROM t WHERE x IN (SELECT x FROM t)", "SELECT s.x FROM (SELECT x FROM t) AS s JOIN LATERAL (SELECT 1) AS l ON true", "SELECT sum(y) + x AS r FROM t", "SELECT x FROM t WHERE EXISTS (SELECT 1 FROM t)",
+                "SELECT x FROM tid WHERE FALSE", "SELECT x FROM tid WHERE x IN (1, 2) AND FALSE", "SELECT c FROM (SELECT x AS c FROM t) AS a UNION ALL SELECT x FROM t", "SELECT * FROM t NATURAL JOIN t AS u NATURAL JOIN t AS v", "SELECT x AS a, y AS a FROM t", "SELECT a.x FROM t AS a JOIN t AS a ON a.id = a.id",
             ];
             if name == "c18_sql_search" { for q in whole {
                 let (q2, relations2) = (q.to_string(), relations.clone());
